@@ -1,0 +1,41 @@
+//go:build verif
+
+package apierror
+
+// Contracts for the deductive checks in /verif (comment-only; no code).
+// Property C19: API errors keep their status and message.
+
+//@ func New
+//@   property C19
+//@   ensures result != nil && isfresh(result) && result.status == status && result.err == err
+
+//@ func (*Error).Status
+//@   property C19
+//@   pure
+//@   requires e != nil
+//@   ensures result == e.status
+
+//@ func (*Error).Unwrap
+//@   property C19
+//@   pure
+//@   requires e != nil
+//@   ensures result == e.err
+
+// FromResponse: no status => the plain text error (or nil); otherwise an API
+// error carrying that status.
+//@ func FromResponse
+//@   property C19
+//@   ensures status != 0 ==> result != nil && typeis(result, "*apierror.Error") && as(result, "*apierror.Error").status == status
+//@   ensures-local status == 0 ==> count("call:New") == 0
+
+// DecodeError: a message with a status decodes to an API error with that
+// status; without one to a plain error; empty input is no error.
+//@ func DecodeError
+//@   property C19
+//@   ensures len(data) == 0 ==> result == nil
+//@   ensures-local count("call:New") <= 1
+//@   at call New#1: assert arg1 == e.Status && arg1 != 0
+
+//@ func EncodeError
+//@   property C19
+//@   ensures err == nil ==> result == nil
